@@ -96,8 +96,50 @@ def main(chk):
     if problems:
         chk.add([fam_result('translator validation', 'R', 'undecided', detail='; '.join(problems[:3]))])
     chk.add(run_jobs(jobs))
+    hs = []
+    for nm in ('MIN', 'MAX'):
+        for n in ((1, 2, 3, 4) if chk.tier == 'quick' else (1, 2, 3, 4, 5, 6)):
+            hs.append(k_minmax_exact(nm, n, n + 3 if chk.tier == 'quick' else 2 * n + 2))
+    chk.add(kani.run_family_set('C01', hs, jobs=12, timeout_s=300 if chk.tier == 'quick' else 3600))
     chk.extra['mir_dump_s'] = round(mir.dump_s, 2)
     chk.assumptions += ['f64 arithmetic modelled as exact real arithmetic in engine R (rounding, NaN, inf, -0.0 not modelled there)',
                         'inputs bounded by 1e12 in magnitude (f64::INFINITY sentinel modelled as 1e400)',
                         'rustc MIR of /repo (nightly, overflow-checks=on) is what is executed; library models listed in coverage.library_models_used']
     chk.notes += ['rounding-error magnitude for full-range inputs', 'periods above the stated bound', 'history longer than t per family']
+
+
+# ------------------------------------------------------------------------------------------------ engine K
+from vlib import kani, native
+from vlib.kani import KB, KOps
+
+
+def k_minmax_exact(name, n, t):
+    """Minimum / Maximum return exactly the least / greatest element of the last min(t, n) inputs, every finite f64 (ties, +-0.0)"""
+    b = KB('c01_exact_%s_n%d_t%d' % (name.lower(), n, t), unwind=max(n, t) + 3,
+           family='K:C01 %s n=%d: exactly the window %s for every finite f64 stream of length %d' % (name, n, 'minimum' if name == 'MIN' else 'maximum', t),
+           bounds=dict(engine='K', indicator=name, n=n, t=t, inputs='every finite f64 (ties, signed zeros, subnormals)'))
+    k = KOps(b)
+    k.new('a', name, [n])
+    vs = []
+    cmpop = '<' if name == 'MIN' else '>'
+    for i in range(t):
+        v = b.anyf('x%d' % i, finite=True); vs.append(v)
+        o = k.feed('a', 'scalar', ('var', v, ('sym', 'x%d' % i)))
+        w = vs[max(0, i - n + 1):]
+        b.emit('{ let mut m = %s; %s assert!(f64::from_bits(%s[0]) == m, "not the window extreme"); }' % (
+            w[0], ' '.join('if %s %s m { m = %s; }' % (x, cmpop, x) for x in w[1:]), o))
+
+    def confirm(vals):
+        ops = k.concrete(vals)
+        for prof in ('dev', 'release'):
+            lines, res = kani.native_ops(ops, prof)
+            xs = [kani.hexf(op[2]) for op in ops if op[0] == 'feed']
+            fo = [o for op, o in zip(ops, res) if op[0] == 'feed']
+            for i, o in enumerate(fo):
+                w = xs[max(0, i - n + 1):i + 1]
+                want = min(w) if name == 'MIN' else max(w)
+                if o == 'panic' or o[0] != want:
+                    return True, lines, '%s(%d) returns %r after %r, the window extreme is %r (%s)' % (name, n, o, xs[:i + 1], want, prof)
+        return False, lines, 'native extreme exact'
+    b.confirm = confirm
+    return b
